@@ -1,5 +1,6 @@
 import Proofs.C03
-import Proofs.Gen
+import Proofs.GenAxes
+import Proofs.GenPurity
 #print axioms Xsel.C03.union_is_eval
 #print axioms Xsel.C03.union_ascending
 #print axioms Xsel.C03.mem_union
